@@ -22,6 +22,11 @@ func modelFor(info *runInfo, h *history, w *write) (*modelIn, string) {
 		// state (a cached value?): judge it by what the system would have said.
 		w.build = &build{g: w.g, node: w.node, ifn: w.ifn, seq: w.seq, t1: w.t, t2: w.t, fwd: worldFwdAt(info, w.node, w.ifn, w.seq)}
 	}
+	if w.build.fwdErr != "" {
+		// The forwarding read of this build failed and an RA went out anyway:
+		// judge it by what the system would have said.
+		w.build.fwd = worldFwdAt(info, w.node, w.ifn, w.seq)
+	}
 	g := h.byKey[genKey(w.node, w.ifn, w.gen)]
 	nLoop := len(info.plan.LoopIdx)
 	if nLoop == 0 {
